@@ -45,6 +45,27 @@ func writerChain(v ssa.Value) (chain []string, ctors []ssa.Value, base ssa.Value
 	return chain, ctors, v
 }
 
+// footerIgnoresCrcField: persistFooter takes a *countHashWriter and never reads
+// the crc field of the footer it is given (design B: it continues the writer's CRC).
+func footerIgnoresCrcField(c *Ctx, pf *ssa.Function) bool {
+	if paramOfType(pf, "*"+rootPkgPath+".countHashWriter") == nil {
+		return false
+	}
+	fp := paramOfType(pf, "*"+rootPkgPath+".footer")
+	for _, b := range pf.Blocks {
+		for _, ins := range b.Instrs {
+			if ld, ok := ins.(*ssa.UnOp); ok && ld.Op == token.MUL {
+				if fa, ok := ld.X.(*ssa.FieldAddr); ok {
+					if owner, f := fieldAddrInfo(fa); owner != nil && owner.Obj().Name() == "footer" && f.Name() == "crc" && (fp == nil || rootParam(fa.X) == ssa.Value(fp)) {
+						return false
+					}
+				}
+			}
+		}
+	}
+	return true
+}
+
 func isSum32Of(v ssa.Value) (cw ssa.Value, ok bool) {
 	switch x := v.(type) {
 	case *ssa.Call:
@@ -149,6 +170,73 @@ func init() {
 				wArg := argOfType(site.Common(), "io.Writer")
 				if fp == nil || wArg == nil {
 					fp, wArg = site.Common().Args[0], site.Common().Args[1]
+				}
+				// Design B: persistFooter is handed a *countHashWriter and continues ITS running
+				// CRC (it never reads footer.crc).  Then what matters is that this writer is the
+				// one all data went through, or a fresh one whose crc was set from that writer.
+				if footerIgnoresCrcField(c, pf) {
+					hw := ssa.Value(nil)
+					if _, ctors, _ := writerChain(wArg); len(ctors) > 0 {
+						hw = ctors[0]
+					}
+					hwCall, _ := hw.(*ssa.Call)
+					if hwCall == nil || hwCall.Call.StaticCallee() == nil || fnName(hwCall.Call.StaticCallee()) != "newCountHashWriter" {
+						r.undecided(key, fnName(fn), c.pos(site.Pos()), "persistFooter continues the CRC of the hashing writer it is given, but that writer is not created in this function: "+wArg.String())
+						continue
+					}
+					dataW := hwCall
+					seeded := false
+					for _, st := range storesToFieldOf(fn, hwCall, "crc") {
+						if !before(st, site) {
+							continue
+						}
+						if src, ok := isSum32Of(st.Val); ok {
+							if sc, ok := src.(*ssa.Call); ok && sc.Call.StaticCallee() != nil && fnName(sc.Call.StaticCallee()) == "newCountHashWriter" {
+								dataW, seeded = sc, true
+							}
+						}
+					}
+					uses := 0
+					_, _, base := writerChain(dataW)
+					for _, b := range fn.Blocks {
+						for _, ins := range b.Instrs {
+							ci, ok := ins.(ssa.CallInstruction)
+							if !ok || ins == ssa.Instruction(site) || !before(ins, site) {
+								continue
+							}
+							sc := ci.Common().StaticCallee()
+							if sc != nil && (strings.HasPrefix(funcFullName(sc), "bufio.NewWriter") || fnName(sc) == "newCountHashWriter" || sc.Name() == "Flush" || sc.Name() == "Sum32" || sc.Name() == "Count") {
+								continue
+							}
+							for _, a := range ci.Common().Args {
+								if !isWriterLike(a.Type()) {
+									continue
+								}
+								_, ctors, ab := writerChain(a)
+								if ab != base {
+									continue
+								}
+								for _, ct := range ctors {
+									if ct == ssa.Value(dataW) {
+										uses++
+									}
+								}
+							}
+						}
+					}
+					switch {
+					case uses == 0 && !seeded:
+						r.bad(key, fnName(fn), c.pos(site.Pos()), "the hashing writer handed to persistFooter is fresh: no data was written through it and its crc was not set from the writer that hashed the data, so the footer CRC covers only the footer")
+					case uses == 0:
+						r.bad(key, fnName(fn), c.pos(site.Pos()), "the writer whose CRC seeds the footer's hashing writer hashed no data")
+					default:
+						how := "the footer is written through the hashing writer that hashed the data"
+						if seeded {
+							how = "the footer's hashing writer is seeded with the running CRC of the writer that hashed the data"
+						}
+						r.ok(key, fnName(fn), c.pos(site.Pos()), fmt.Sprintf("%s (%d data-writing call(s))", how, uses))
+					}
+					continue
 				}
 				// (1) dominating store to fp.crc
 				var seed *ssa.Store
@@ -324,6 +412,43 @@ func init() {
 						}
 					}
 				}
+			}
+			if cw == nil && len(writes) > 0 && footerIgnoresCrcField(c, fn) {
+				// design B: the caller's hashing writer is used directly; its seeding is CRC-SEED's business
+				hwp := paramOfType(fn, "*"+rootPkgPath+".countHashWriter")
+				for _, w := range writes {
+					if _, _, base := writerChain(writerOf[w]); base != ssa.Value(hwp) {
+						r.bad(key, fnName(fn), c.pos(w.Pos()), "a footer field is written bypassing the hashing writer")
+						return
+					}
+				}
+				var last *ssa.Call
+				nLast := 0
+				for _, w := range writes {
+					final := true
+					for _, w2 := range writes {
+						if w2 != w && canExecuteAfter(w, w2) {
+							final = false
+						}
+					}
+					if final && !canExecuteAfter(w, w) {
+						last, nLast = w, nLast+1
+					}
+				}
+				if nLast != 1 || len(dataOf[last]) != 1 {
+					r.undecided(key, fnName(fn), c.pos(fn.Pos()), "the footer writes have no single last write carrying one value")
+					return
+				}
+				data := dataOf[last][0]
+				if mi, ok := data.(*ssa.MakeInterface); ok {
+					data = mi.X
+				}
+				if src, ok := isSum32Of(data); !ok || src != ssa.Value(hwp) {
+					r.bad(key, fnName(fn), c.pos(last.Pos()), "the last footer write is not the running CRC of the hashing writer the footer is written through (it writes "+data.String()+")")
+					return
+				}
+				r.ok(key, fnName(fn), c.pos(fn.Pos()), fmt.Sprintf("%d field writes through the caller's hashing writer; its running CRC is written last", len(writes)))
+				return
 			}
 			if cw == nil || len(writes) == 0 {
 				r.undecided(key, fnName(fn), c.pos(fn.Pos()), "persistFooter no longer writes its fields with binary.Write through a countHashWriter: the rule's model is out of date")
